@@ -33,12 +33,12 @@ Definition sub_step (e : E) (ri : option I) (a : A) : E * option I * sout * list
 
 (* the same loop body with the three decision formulas as parameters (instantiated in
    Proofs/VecEnvProofs.v with the fragments regenerated from dummy_vec_env.py / subproc_vec_env.py) *)
-Definition sub_step_with (fdone ftl : bool -> bool -> bool) (fguard : bool -> bool)
+Definition sub_step_with (fdone ftl : bool -> bool -> bool) (fguard : bool -> bool -> bool -> bool)
   (e : E) (ri : option I) (a : A) : E * option I * sout * list call :=
   let '(e1, (obs, r, term, trunc, info)) := e_step e a in
   let done := fdone term trunc in
   let tl := ftl term trunc in
-  if fguard done then
+  if fguard done term trunc then
     let '(e2, (obs2, ri2)) := e_reset e1 None None in
     (e2, Some ri2, mk_sout obs2 r done info tl (Some obs), [CStep a; CReset None None])
   else (e1, ri, mk_sout obs r done info tl None, [CStep a]).
